@@ -452,6 +452,9 @@ def check_path_writable(path: str) -> bool:
     try:
         if path.endswith("\\") or path.endswith("/"):
             path = os.path.join(path, ".torrent")
+        # a directory of that name cannot be probed (and is not in the way)
+        if os.path.isdir(path):
+            return True
         existed = os.path.lexists(path)
         with open(path, "ab") as _:
             pass
